@@ -59,6 +59,12 @@ class EngineP(EngineBase):
         self.corpus_short = self.corpus_short[::step][:70]
         self.short_texts = sorted({x for _, p in self.corpus_short + self.compounds for x in p} | set(corpus.MICRO) | set(BROKEN))
         # anything whose trees are already in the on-disk cache costs nothing in memo-parse runs
+        try:
+            from sim import attrmodel
+            noped = attrmodel.noped_list()
+        except Exception:  # noqa: BLE001
+            noped = []
+        self.special_names = sorted(set(noped) | {"dep_" + n for n in noped} | {n + "_undocumented" for n in noped} | {"X2_dummy", "SA2_tfrsi"})
         self.corpus_cached = sorted((n, p) for n, p in beh.items() if all(x in self.tc.data for x in p))
         self.cached_ok_texts = sorted({x for _, p in self.corpus_cached for x in p if self.tc.data[x][0] == "ok"})
 
@@ -133,6 +139,9 @@ class EngineP(EngineBase):
                 good = [ch.choice(corpus.MICRO, "bgood") for _ in range(ch.randint(0, 2, "bpre"))]
                 post = [ch.choice(corpus.MICRO, "bpost") for _ in range(ch.randint(0, 1, "bpostn"))]
                 parts = good + [ch.choice(BROKEN, "broken")] + post
+                if ch.chance(1, 3, "two-broken"):
+                    # several broken parts (of different error classes): the *first* failure is the entry's error
+                    parts = parts + [ch.choice(BROKEN, "broken2")] + ([ch.choice(corpus.MICRO, "bpost2")] if ch.chance(1, 2, "b2") else [])
             else:  # fault
                 name = f"f{i}"
                 uid += 1
@@ -142,6 +151,9 @@ class EngineP(EngineBase):
                 parts = good + [text] + post
                 plan[text_key(text)] = ch.choice(FAULT_KINDS, "faultkind")
             # name games: same text under several names, case-only differences, prefixes
+            if self.special_names and ch.chance(1, 12, "specialname"):
+                # names that other resource files of the project mention (no-op list and its documented aliases)
+                name = ch.choice(self.special_names, "special")
             r = ch.draw(10, "namegame")
             if names and r == 0:
                 name = sorted(names)[ch.draw(len(names), "ng")].swapcase()
